@@ -183,6 +183,9 @@ func (x *Exec) havocAll(st *State, keepTypes ...string) {
 			if strings.HasPrefix(en, "*") {
 				ep = "E:*" + x.fn.Pkg.Pkg.Name() + "." + en[1:]
 			}
+			if en == "byte" {
+				ep = "E:byte"
+			}
 			keyMu.Lock()
 			var ks []string
 			for k := range x.prog.keySorts {
